@@ -101,6 +101,9 @@ type env struct {
 	settings *cli.EnvSettings
 	written  map[string][]byte
 	present  map[string]bool
+	// blanket[entry][reference reason]: the entry point gets even the simplest
+	// case with that reference verdict wrong (set by explorer.sentinels; nil in replays)
+	blanket map[string]map[string]bool
 }
 
 func newEnv(root string) *env {
@@ -311,11 +314,13 @@ func (e *env) execCase(ci *caseIn) (verdict, []obs, []core.Violation) {
 	}
 	v := reference(ci.Archive, ci.ArchName, ci.Prov, ci.NoProv, ci.RingBytes)
 	// per entry point the first finding (judge lists the verdict mismatch before
-	// the corollaries) names the class; the others are appended to its text
-	var all []finding
+	// the corollaries) names the class; the others are appended to its text.
+	// The class names family and location unless the entry point already gets
+	// the simplest case with the same reference verdict wrong (e.blanket): then
+	// the location carries no information and one key stands for all of them.
 	var os_ []obs
-	byKind := map[string][]finding{}
-	var kinds []string
+	byKey := map[string][]finding{}
+	var gks []string
 	for _, en := range entries {
 		o := e.runEntry(en, ci, archPath, ringPath)
 		os_ = append(os_, o)
@@ -327,20 +332,26 @@ func (e *env) execCase(ci *caseIn) (verdict, []obs, []core.Violation) {
 		for _, x := range fs[1:] {
 			pf.What += "; also " + x.Kind + ": " + x.What
 		}
-		all = append(all, pf)
-		if _, ok := byKind[pf.Kind]; !ok {
-			kinds = append(kinds, pf.Kind)
+		gk := ci.Family + "/" + pf.Kind
+		if r := keyRegion(ci, v); r != "" {
+			gk += "/" + r
 		}
-		byKind[pf.Kind] = append(byKind[pf.Kind], pf)
+		if (strings.HasPrefix(pf.Kind, "accepts-invalid:") || pf.Kind == "rejects-valid") && e.blanket[en][v.Reason] {
+			gk = "any-case/" + pf.Kind
+		}
+		if _, ok := byKey[gk]; !ok {
+			gks = append(gks, gk)
+		}
+		byKey[gk] = append(byKey[gk], pf)
 	}
-	sort.Strings(kinds)
-	if len(all) == 0 {
+	if len(gks) == 0 {
 		return v, os_, nil
 	}
+	sort.Strings(gks)
 	rd, _ := json.Marshal(ci)
 	var vs []core.Violation
-	for _, k := range kinds {
-		fs := byKind[k]
+	for _, gk := range gks {
+		fs := byKey[gk]
 		var ens []string
 		for _, f := range fs {
 			ens = append(ens, f.Entry)
@@ -349,14 +360,9 @@ func (e *env) execCase(ci *caseIn) (verdict, []obs, []core.Violation) {
 		if len(ens) == len(entries) {
 			enKey = "all-entry-points"
 		}
-		key := ci.Family + "/" + k
-		if r := keyRegion(ci, v); r != "" {
-			key += "/" + r
-		}
-		key += "/" + enKey
 		what := fmt.Sprintf("%s: %s [case: %s; pair %s; keyring %s; archive %q %d bytes; reference: %s]",
 			strings.Join(ens, ","), fs[0].What, ci.Desc, ci.Pair, ci.Ring, ci.ArchName, len(ci.Archive), v.Reason)
-		vs = append(vs, core.Violation{Property: prop, Key: core.SanitizeKey(key), What: what, Replay: rd})
+		vs = append(vs, core.Violation{Property: prop, Key: core.SanitizeKey(gk + "/" + enKey), What: what, Replay: rd})
 	}
 	return v, os_, vs
 }
@@ -515,6 +521,7 @@ func run(c *core.Ctx) {
 		c.Bound("prov_byte_deletions", "every byte position (keyring other+signer)")
 	}
 
+	x.sentinels()
 	x.structured()
 	for pi := range f.pairs {
 		for _, ri := range bulkRings {
@@ -674,6 +681,41 @@ func fixtureViolations(root string, f *fixture, err error) []core.Violation {
 		}
 	}
 	return vs
+}
+
+// sentinels runs, in every shard and outside the case count, the simplest case
+// of each reference verdict through every entry point. They only decide how
+// finding keys are formed (see execCase); the same cases are part of the
+// enumerated families, which is where they are judged.
+func (x *explorer) sentinels() {
+	p0, p2 := x.f.pairs[0], x.f.pairs[2]
+	mk := func(ri int, mod func(ci *caseIn)) *caseIn {
+		ci := x.base(0, ri, "sentinel", "sentinel")
+		mod(ci)
+		return ci
+	}
+	cases := []*caseIn{
+		mk(0, func(ci *caseIn) {}),
+		mk(0, func(ci *caseIn) { ci.Prov, ci.NoProv, ci.OriginText = nil, true, nil }),
+		mk(3, func(ci *caseIn) {}),
+		mk(0, func(ci *caseIn) { ci.Prov = []byte{} }),
+		mk(0, func(ci *caseIn) { ci.Prov, ci.OriginText = splice(p0.Prov, p2.Prov), nil }),
+		mk(0, func(ci *caseIn) { ci.Archive = []byte{} }),
+		mk(0, func(ci *caseIn) { ci.ArchName = "renamed-" + p0.Base }),
+	}
+	bl := map[string]map[string]bool{}
+	for _, en := range entries {
+		bl[en] = map[string]bool{}
+	}
+	for _, ci := range cases {
+		v, os_, _ := x.e.execCase(ci)
+		for i, o := range os_ {
+			if o.OK != v.Accept {
+				bl[entries[i]][v.Reason] = true
+			}
+		}
+	}
+	x.e.blanket = bl
 }
 
 // structured enumerates every family except the per-position ones.
